@@ -29,6 +29,16 @@ def perms_in(term, name=".transpose"):
     return out
 
 
+def _value_leaves(t):
+    """sub-terms that supply the values of `t`, looking through conditionals, astype, copy and axis permutations"""
+    if t.op == "ite":
+        return _value_leaves(t.args[1]) | _value_leaves(t.args[2])
+    if t.op == "call" and t.args[0] in (".astype", ".transpose", ".copy", "numpy.transpose", "numpy.ascontiguousarray", "numpy.asarray", "numpy.array",
+                                         ".view", ".swapaxes", "numpy.swapaxes", "numpy.moveaxis"):
+        return _value_leaves(t.args[1])
+    return {t}
+
+
 def o111(ctx):
     m, fn = ctx.prog.func(RD)
     ctx.touched(RD, WR)
@@ -78,6 +88,13 @@ def o111(ctx):
             ctx.count(1)
             if not tm.contains(t, lambda x: x.op == "call" and x.args[0] == ".astype" and tm.has_sym(x, "data_type")):
                 ctx.finding(WR, ev.node, "a requested data_type must be applied to the data before writing", ev.node, mw)
+            # value path: between the caller's array and the library call only type conversion and axis permutation may act
+            leaves = _value_leaves(t)
+            ctx.count(1, {"values handed to the library": sorted({tm.show(x)[:40] for x in leaves})} if ext == "mrc" else None)
+            bad = [x for x in leaves if x != sym("volume")]
+            if bad:
+                ctx.finding(WR, ev.node, "the voxel values must reach the file as they are: only the requested type conversion (astype) and the axis "
+                            f"permutation may act on them, but the data also pass through {tm.show(bad[0])[:80]}", ev.node, mw)
             ow = ev.kwargs.get("overwrite")
             ctx.count(1)
             if ow is None or to_term(ow) != sym("overwrite"):
